@@ -42,6 +42,60 @@ function encodeResult(r) {
   return { type: t, value: String(r) };
 }
 
+// --- C09, JavaScript layer -----------------------------------------------------------------------------------
+// With VERIF_JS_SPY set, every function the wasm module registers on globalThis (names taken from wasm/main.go by the
+// engine, plus whatever else appears during start-up) is reached through a wrapper installed BEFORE the package's
+// entry module runs, so references the package captures are wrappers too. The wrappers can (a) log calls and
+// (b) replace an HMAC-derived return value (a string of 1..10 digits) by a substitute: a plain string (does the
+// package's verdict follow a value that crossed into JavaScript?) or a string-like object that logs which of its
+// characters are read (does a comparison in JavaScript read all positions, or stop early / use ===?).
+const spy = { on: !!process.env.VERIF_JS_SPY, real: {}, log: [], mode: "off", substitute: null, reads: [] };
+function looksDerived(v) { return typeof v === "string" && /^[0-9]{1,10}$/.test(v); }
+function stringLike(str) {
+  const o = {
+    get length() { spy.reads.push("length"); return str.length; },
+    charCodeAt(i) { spy.reads.push(i); return str.charCodeAt(i); },
+    charAt(i) { spy.reads.push(i); return str.charAt(i); },
+    codePointAt(i) { spy.reads.push(i); return str.codePointAt(i); },
+    at(i) { spy.reads.push(i); return str.at(i); },
+    [Symbol.toPrimitive]() { spy.reads.push("primitive"); return str; },
+    toString() { spy.reads.push("primitive"); return str; },
+    valueOf() { spy.reads.push("primitive"); return str; },
+    [Symbol.iterator]() { spy.reads.push("iterator"); return str[Symbol.iterator](); },
+    split(x) { spy.reads.push("split"); return str.split(x); },
+  };
+  return new Proxy(o, { get(t, k, r) {
+    if (typeof k === "string" && /^[0-9]+$/.test(k)) { spy.reads.push(Number(k)); return str[k]; }
+    return Reflect.get(t, k, r);
+  } });
+}
+function wrap(name) {
+  return function (...args) {
+    const f = spy.real[name];
+    const r = f.apply(this, args);
+    if (spy.mode !== "off") {
+      spy.log.push({ name, derived: looksDerived(r) });
+      if (looksDerived(r) && spy.mode === "plain") return spy.substitute;
+      if (looksDerived(r) && spy.mode === "object") return stringLike(spy.substitute);
+    }
+    return r;
+  };
+}
+function trap(name) {
+  if (Object.prototype.hasOwnProperty.call(spy.real, name)) return;
+  spy.real[name] = undefined;
+  const w = wrap(name);
+  Object.defineProperty(globalThis, name, {
+    configurable: true, enumerable: true,
+    get() { return typeof spy.real[name] === "function" ? w : spy.real[name]; },
+    set(v) { spy.real[name] = v; },
+  });
+}
+const keysBefore = new Set(Object.getOwnPropertyNames(globalThis));
+if (spy.on) {
+  for (const n of (process.env.VERIF_JS_GLOBALS || "generateHOTP,generateTOTP,validateHOTP,validateTOTP,generateOTPURL").split(",")) if (n) trap(n);
+}
+
 (async () => {
   const init = require(path.resolve(__dirname, "src/index.js"));
   let pkg;
@@ -50,6 +104,17 @@ function encodeResult(r) {
   } catch (e) {
     process.stdout.write(JSON.stringify({ fatal: "init failed: " + e }) + "\n");
     process.exit(3);
+  }
+  if (spy.on) {
+    // functions that appeared on globalThis during start-up under names the engine did not announce
+    for (const n of Object.getOwnPropertyNames(globalThis)) {
+      if (!keysBefore.has(n) && !(n in spy.real) && typeof globalThis[n] === "function" && n !== "Go") {
+        const f = globalThis[n];
+        delete globalThis[n];
+        trap(n);
+        globalThis[n] = f;
+      }
+    }
   }
   process.stdout.write(JSON.stringify({ ready: true }) + "\n");
   const rl = readline.createInterface({ input: process.stdin, terminal: false });
@@ -65,6 +130,27 @@ function encodeResult(r) {
       return;
     }
     if (msg.cmd === "quit") { process.exit(0); }
+    if (msg.cmd === "c09") {
+      // one validation call through the package's export: plain, with derived values replaced by `substitute` as a
+      // plain string, and with derived values replaced by a string-like object that logs which characters are read
+      const f = pkg[msg.fn];
+      const out = { missing: typeof f !== "function" };
+      if (!out.missing) {
+        const args = msg.args.map(decodeArg);
+        const run = (mode) => {
+          spy.mode = mode; spy.substitute = msg.substitute; spy.log = []; spy.reads = [];
+          let r;
+          try { r = encodeResult(f.apply(null, args)); } catch (e) { r = { type: "throw", value: String(e) }; }
+          spy.mode = "off";
+          return { result: r, calls: spy.log.slice(0, 64), reads: spy.reads.slice(0, 64) };
+        };
+        out.observe = run("observe");
+        out.plain = run("plain");
+        out.object = run("object");
+      }
+      process.stdout.write(JSON.stringify({ c09: out }) + "\n");
+      return;
+    }
     const results = [];
     for (const c of msg.calls) {
       let f = c.via === "pkg" ? pkg[c.fn] : globalThis[c.fn];
